@@ -2390,7 +2390,7 @@ def _sym_comprehension(eng, st, node, kind, si, elt, saved, restore):
             yield st, st.alloc(SSet(te, has), "set")
             return
         raise Unsupported("filtered list comprehension over symbolic-length sequence")
-    te = type_of(v)
+    te = NoneT if v is None else type_of(v)
     if te is None:
         raise Unsupported("comprehension element type")
     arr = z3.Lambda([j.z], to_z3(v, te))
